@@ -64,6 +64,7 @@ class Subj(Renderable):
         self.fin_log = []
         self.size_fail = None
         self.stream_pos = 0  # INDEFINITE stream position (frames consumed)
+        self.on_render = None  # optional callback invoked inside _render_
 
     def _get_render_size_(self):
         if self.size_fail:
@@ -92,6 +93,8 @@ class Subj(Renderable):
         if render_data.finalized:
             used_after_finalize.append(render_data[Subj].token)
         self.log.append((data.frame_offset, int(data.seek_whence), tuple(data.size), data.duration if self.animated else None, render_args[Subj].tag))
+        if self.on_render is not None:
+            self.on_render()
         if self.fail_at and self.fail_at[0] == self.calls:
             raise self.fail_at[1]
         if self._frame_count is FrameCount.INDEFINITE and data.iteration:
